@@ -567,3 +567,58 @@ def run(P, C):
         C.ob("MT-7", "evaluate_descent", "shared:" + fld, ok, where,
              ("shared by all workers and only read in the unlocked region (%d call argument uses)" % len(by_field.get(fld, []))) if ok else
              "object shared by all workers is modified without synchronisation: " + "; ".join([b[1] for b in bad] + det)[:600])
+
+
+def mt9(P, C):
+    """MT-9: per-job accumulators of the worker are reset inside the job loop before the first accumulation."""
+    C.rule("MT-9", "every field of the worker's trial record that one job accumulates into (field++, field += ..., buffer[field++] = ...) is "
+           "re-initialised by a plain assignment inside the worker's job loop, on every path before the first accumulation of that job — a "
+           "worker serves several trial steps when there are fewer workers than steps, and must not carry one job's count into the next", floor=1)
+    E = P.one("evaluate_descent", file_endswith="cholesky_solve.c")
+    loops = [i for i in E.walk() if E.k(i) in ("WhileStmt", "ForStmt", "DoStmt") and not any(E.k(a) in ("WhileStmt", "ForStmt", "DoStmt") for a in E.ancestors(i))]
+    job = [L for L in loops if any(call_name(E, x) == "pthread_cond_wait" for x in E.walk(L) if E.nodes[x].get("callee"))]
+    if len(job) != 1:
+        raise core.AnalysisBroken("MT-9: expected one outermost job loop containing the wait in evaluate_descent, found %d" % len(job))
+    L = job[0]
+    inloop = set(E.walk(L))
+    acc = {}
+    resets = {}
+    for i in inloop:
+        fld = field_access(E, i)
+        if fld is None or not is_store_lhs(E, i):
+            continue
+        p = E.parent[i]
+        while E.k(p) == "ParenExpr":
+            p = E.parent[p]
+        n = E.nodes[p]
+        if n["k"] == "UnaryOperator" or n["k"] == "CompoundAssignOperator":
+            acc.setdefault(fld, []).append(p)
+        elif n["k"] == "BinaryOperator" and n["op"] == "=":
+            # a reset does not read the field it sets
+            if not any(field_access(E, x) == fld for x in E.walk(n["ch"][1])):
+                resets.setdefault(fld, []).append(p)
+    pos = E.node_positions()
+    dom = E.dominators()
+
+    def at(i):
+        while i >= 0 and i not in pos:
+            i = E.parent[i]
+        return pos.get(i)
+
+    for fld, sites in sorted(acc.items()):
+        bad = []
+        for a in sites:
+            pa = at(a)
+            ok = False
+            for r in resets.get(fld, []):
+                pr = at(r)
+                if pa and pr and ((pr[0] == pa[0] and pr[1] < pa[1]) or (pr[0] != pa[0] and pr[0] in dom.get(pa[0], ()))):
+                    ok = True
+            if not ok:
+                bad.append(a)
+        C.ob("MT-9", "evaluate_descent", "accumulator:" + fld, not bad, E.loc(bad[0]) if bad else E.loc(sites[0]),
+             ("trial->%s is reset inside the job loop before each job's first accumulation (%d accumulation site(s))" % (fld, len(sites))) if not bad else
+             "trial->%s is accumulated at %s without a reset inside the job loop that precedes it on every path: a worker that serves a second "
+             "trial step continues from the previous job's value" % (fld, ", ".join(E.loc(b) for b in bad)))
+    if not acc:
+        raise core.AnalysisBroken("MT-9: no accumulated field found in the job loop")
